@@ -613,4 +613,14 @@ example : splitWf [⟨1, false, 0, false⟩] = false := by decide
 example : splitWf [⟨0, true, 0, false⟩, ⟨2, false, 1, false⟩] = false := by decide
 example : splitWf [⟨0, true, 0, false⟩, ⟨9223372036854775809, false, 3, false⟩, ⟨9223372036854775808, true, 1, false⟩] = false := by decide
 
+/-- The Boolean balance test the driver evaluates on a dump is exactly AVL balance of the shape. -/
+theorem ATree.shapeBalanced_iff : ∀ t : ATree, t.shapeBalanced = true ↔ t.Balanced
+  | .nil => by simp [ATree.shapeBalanced, ATree.Balanced]
+  | .node _ _ _ l r => by
+    simp only [ATree.shapeBalanced, ATree.Balanced, Bool.and_eq_true, decide_eq_true_eq,
+      ATree.shapeBalanced_iff l, ATree.shapeBalanced_iff r]
+    constructor
+    · rintro ⟨⟨⟨a, b⟩, c⟩, d⟩; exact ⟨a, b, c, d⟩
+    · rintro ⟨a, b, c, d⟩; exact ⟨⟨⟨a, b⟩, c⟩, d⟩
+
 end CdsVerif.Props.C18
